@@ -229,6 +229,22 @@ def open_elf(img):
     return ELFFile(_CUR['streams'].open(img, _CUR['kind']))
 
 
+def load_and_drop_owner(img):
+    """segments of ELFFile.load_from_path(<real file>), taken while the ELFFile is alive; then the ELFFile - the only
+    holder of the file object besides the segments - is dropped and collected.  A plain Segment keeps the stream, so
+    its contents must still be readable.  The caller closes seg.stream when done."""
+    import gc
+    from elftools.elf.elffile import ELFFile
+    elf = ELFFile.load_from_path(_CUR['streams'].path_of(img))
+    segs = list(elf.iter_segments())
+    for k, v in list(vars(elf).items()):        # cut ELFFile <-> section cycles: the drop below finalises it at once
+        if getattr(v, 'elffile', None) is elf:
+            setattr(elf, k, None)
+    del elf
+    gc.collect(0)
+    return segs
+
+
 def open_after_predecessor(ctx, sibling, img, use):
     """ELFFile(img), opened right after a PREDECESSOR - an ELFFile over [sibling] (same geometry, different bytes)
     whose section 1 was put through [use] - has been dropped, and (CPython) at the very address the predecessor
@@ -585,13 +601,19 @@ def gen_segments(ctx, cases):
                 ops = [rng.choice([0, 0, 1, 2]) for _ in range(rng.randint(1, 4))]
                 if 0 not in ops:
                     ops.insert(rng.randint(0, len(ops)), 0)
+                how = rng.randrange(5)
+                if how == 4:
+                    ops = [0] * rng.randint(1, 2)   # 4: load_from_path, segments taken, the ELFFile dropped and collected
+                                                    # BEFORE data() is asked (sections would keep the ELFFile alive)
                 cases.append(('seg_data', [cfg, rng.choice([1, 1, 2, 4, 4, 7, 0x6474e551, 0x70000003, 0x12345]), off, size, length,
-                                           rng.getrandbits(8), rng.randrange(4), ops, draw_phdr_free(rng, cfg[0], size)]))
+                                           rng.getrandbits(8), how, ops, draw_phdr_free(rng, cfg[0], size)]))
         for n in [0, 1, 2, 15, 63, 64, 65, 127, 128, 200]:
             path = (b'/lib64/ld-linux-x86-64.so.2' * 9)[:n] if n % 2 else ('/élib/ld.so'.encode() * 30)[:n]
             path = path.decode('utf-8', errors='ignore').encode()
             cases.append(('interp', [cfg, BASE + rng.choice([0, 3]), path, True, rng.choice([0, 4]), rng.getrandbits(8), 0,
-                                     rng.choice([[0], [1, 0], [0, 1, 0], [0, 0], [1, 1, 0]]),
+                                     # a leading 9: the segment comes from load_from_path and its ELFFile is dropped
+                                     # and collected before anything is asked
+                                     rng.choice([[0], [1, 0], [0, 1, 0], [0, 0], [1, 1, 0], [9, 0], [9, 1, 0]]),
                                      draw_phdr_free(rng, cfg[0], len(path) + 1)]))
             # p_filesz is a free header field: the path is the C string at p_offset whatever the segment's
             # declared size (larger: bytes after the terminator lie inside the segment; smaller: the string
@@ -1286,6 +1308,9 @@ def _evaluate(ctx, cases):
             w.mi = ask(['interp_at', w.img, le, is64, pl.phoff])
             w.si = ask(['spec_string', w.img, a[1]])
             w.extra['ops'] = a[7] if len(a) > 7 else [0]
+            w.extra['drop_owner'] = w.extra['ops'][:1] == [9]
+            if w.extra['drop_owner']:
+                w.extra['ops'] = w.extra['ops'][1:]
             if 1 in w.extra['ops']:
                 fsz = pl.segments[0][5]
                 w.extra['dmi'] = ask(['seg_data_at', w.img, le, is64, pl.phoff])
@@ -1468,6 +1493,12 @@ def _evaluate(ctx, cases):
                 ssis[code] = strict if dom else msis[code]
 
             def run():
+                if how == 4:
+                    seg = load_and_drop_owner(w.img)[0]
+                    try:
+                        return [impl_call(seg.data) for code in ops]
+                    finally:
+                        seg.stream.close()
                 elf = open_elf(w.img)
                 if how == 0:
                     seg = elf.get_segment(0)
@@ -1490,7 +1521,8 @@ def _evaluate(ctx, cases):
             impl = impl_call(run)
             model = [mdata if c == 0 else msis[c] for c in ops]
             spec = [sdata if c == 0 else ssis[c] for c in ops]
-            ctx.bump('seg_obtained', ('get_segment', 'iter_segments abandoned', 'list(iter_segments)', 'iter_segments(type) abandoned')[how])
+            ctx.bump('seg_obtained', ('get_segment', 'iter_segments abandoned', 'list(iter_segments)', 'iter_segments(type) abandoned',
+                                      'load_from_path, ELFFile dropped')[how])
             ctx.record(kind, w.full, impl=impl, spec=spec, model=model_for(w, in_dom, model), in_domain=in_dom, nontrivial=a[3] > 0)
         elif kind == 'interp':
             mname = answers[w.mi]
@@ -1508,14 +1540,20 @@ def _evaluate(ctx, cases):
                 mdata = sdata = None
 
             def run():
-                seg = open_elf(w.img).get_segment(0)
+                drop = w.extra['drop_owner']
+                seg = load_and_drop_owner(w.img)[0] if drop else open_elf(w.img).get_segment(0)
                 out = []
-                for code in ops:
-                    if code == 0:
-                        out.append(impl_call(lambda: ['ok', seg.get_interp_name().encode('utf-8')]))
-                    else:
-                        out.append(impl_call(seg.data))
+                try:
+                    for code in ops:
+                        if code == 0:
+                            out.append(impl_call(lambda: ['ok', seg.get_interp_name().encode('utf-8')]))
+                        else:
+                            out.append(impl_call(seg.data))
+                finally:
+                    if drop:
+                        seg.stream.close()
                 return out
+            ctx.bump('interp_owner', 'ELFFile dropped before asking' if w.extra['drop_owner'] else 'alive')
             impl = impl_call(run)
             model = [mname if c == 0 else mdata for c in ops]
             spec = [sname if c == 0 else sdata for c in ops]
